@@ -525,6 +525,19 @@ func checkC13(c *fw.Ctx) {
 			}
 		}
 		c.Min(rule5+" Authorization sites", len(adds), 1)
+		// positive evidence of a round-trip test that cannot fail: both sides are re-encodings by
+		// net/url (what was signed is the string in fields.RequestURI, not its re-encoding)
+		for _, iff := range fw.Ifs(h) {
+			cv, _ := fw.BoolCond(iff.Cond)
+			bo, ok := cv.(*ssa.BinOp)
+			if !ok || (bo.Op != token.NEQ && bo.Op != token.EQL) {
+				continue
+			}
+			x, y := fw.Sig(bo.X), fw.Sig(bo.Y)
+			if strings.HasPrefix(x, "(*net/url.URL).RequestURI(") && strings.HasPrefix(y, "(*net/url.URL).RequestURI(") {
+				c.Fail(rule5, "HTTPRequest: the round-trip test compares with the signed request URI", c.P.Pos(fw.InstrPos(iff)), "the URI that goes on the wire is compared with another re-encoding ("+y+"), not with the signed string fields.RequestURI: a signed URI that net/url re-encodes is sent in a form the destination cannot verify")
+			}
+		}
 		c.CheckGate(rule5, h, "HTTPRequest", fw.GuardCond("request URI round-trips", func(v ssa.Value) (bool, bool) {
 			s := fw.Sig(v)
 			if strings.HasPrefix(s, "((*net/url.URL).RequestURI(") && strings.HasSuffix(s, "!= *recv.fields.RequestURI)") {
